@@ -153,7 +153,73 @@ def judge_start_with(ctx, s, k, obs=None):
             ctx.nontrivial(('start-with', k))
 
 
+def cli_limits_part(ctx, only=None):
+    """the front end hands every limit to the driver as given: `cvise.py` is run for real with each limit option and value
+    (boundary values and values larger than the input included); the arguments that reach TestManager and the schedule that
+    reaches CVise.reduce are captured (tools/cliprobe.py) and compared with the command line"""
+    import os
+    import shutil
+    import tempfile
+    from pathlib import Path
+    import cliprobe
+    base = Path(tempfile.mkdtemp(prefix='c16cli-', dir=ctx.scratch))
+    stub = cliprobe.stub_dir(base)
+    wd = base / 'wd'
+    wd.mkdir()
+    (wd / 'a.c').write_text('int keep1;\nint x;\n')          # 18 bytes: some limits below are larger than the whole input
+    (wd / 't.sh').write_text('#!/bin/sh\ngrep -q keep1 a.c\n')
+    os.chmod(wd / 't.sh', 0o755)
+    probes = []
+    for v in (0, 1, 17, 18, 19, 1000, 10 ** 9):
+        probes.append((['--max-improvement', str(v)], {'max_improvement': v}))
+    for v in (0, 1, 2, 1000):
+        probes.append((['--skip-after-n-transforms', str(v)], {'skip_after_n_transforms': v}))
+    probes.append((['--no-give-up'], {'no_give_up': True}))
+    probes.append(([], {'no_give_up': False, 'max_improvement': None, 'skip_after_n_transforms': None, 'start_with_pass': None}))
+    probes.append((['--start-with-pass', 'BlankPass'], {'start_with_pass': 'BlankPass'}))
+    probes.append((['--start-with-pass', 'LinesPass::0', '--skip-initial-passes'], {'start_with_pass': 'LinesPass::0'}))
+    probes.append((['--also-interesting', '7', '--n', '3', '--timeout', '9'], {'also_interesting': 7, 'parallel_tests': 3, 'timeout': 9}))
+    probes.append((['--max-improvement', '5', '--skip-after-n-transforms', '2', '--no-give-up', '--start-with-pass', 'CommentsPass'],
+                   {'max_improvement': 5, 'skip_after_n_transforms': 2, 'no_give_up': True, 'start_with_pass': 'CommentsPass'}))
+    for i, (opts, want) in enumerate(probes):
+        if only is not None and i != only:
+            continue
+        rc, out, got = cliprobe.run_cli(stub, opts + ['t.sh', 'a.c'], wd, capture=True)
+        ctx.count()
+        sc = {'kind': 'cli-limits', 'probe': i, 'options': opts}
+        if not got or 'test_manager' not in got:
+            ctx.notes['cli_limits'] = 'the front end could not be captured here: ' + out[-200:]
+            continue
+        bad = {k: (got['test_manager'].get(k), v) for k, v in want.items() if got['test_manager'].get(k) != v}
+        if bad:
+            ctx.report('front-end-does-not-hand-the-limit-over', f'cvise.py {" ".join(opts)}: the driver received {{option: (received, given)}} = {bad}', sc)
+        elif '--skip-initial-passes' in opts and got.get('skip_initial') is not True:
+            ctx.report('front-end-does-not-hand-the-limit-over', f'cvise.py {" ".join(opts)}: skip_initial = {got.get("skip_initial")}', sc)
+        else:
+            ctx.nontrivial(('cli-limits', i))
+    # the per-pass limits of the shipped schedule arrive as written in the group file
+    rc, out, got = cliprobe.run_cli(stub, ['t.sh', 'a.c'], wd, capture=True)
+    if got and 'schedule' in got:
+        import json as _json
+        from vlib import REPO
+        d = _json.loads((REPO / 'cvise/pass_groups/all.json').read_text())
+        for cat in ('first', 'main', 'last'):
+            want = [int(e['max-transforms']) if 'max-transforms' in e else None for e in d[cat]
+                    if not ('include' in e) and not e.get('renaming')]
+            have = got['limits'].get(cat, [])
+            ctx.count()
+            if [x for x in want if x is not None] != [x for x in have if x is not None]:
+                ctx.report('front-end-does-not-hand-the-limit-over:max-transforms', f'category {cat}: limits in all.json {[x for x in want if x is not None]}, limits of the scheduled passes {[x for x in have if x is not None]}',
+                           {'kind': 'cli-limits', 'probe': -1})
+    shutil.rmtree(base, ignore_errors=True)
+
+
 def run(ctx):
+    if ctx.replay and json.load(open(ctx.replay)).get('kind') == 'cli-limits':
+        pr = json.load(open(ctx.replay)).get('probe')
+        cli_limits_part(ctx, pr if pr is not None and pr >= 0 else None)
+        print('replayed ->', 'fails' if ctx.violations else 'holds')
+        return 1 if ctx.violations else 0
     if ctx.replay:
         o = json.load(open(ctx.replay))
         if o.get('kind') == 'start-with':
@@ -166,6 +232,7 @@ def run(ctx):
     diffs = []
     rows = D.sweep(ctx, scens(ctx, 400 if ctx.tier == 'quick' else 6000), [oracle, oracle_zero, D.oracle_giveup], diffs, nontriv)
     start_with_part(ctx, diffs)
+    cli_limits_part(ctx)
     ctx.sample({'scenario_key': D.scen_key(rows[3][0]), 'cfg': rows[3][0]['cfg'], 'consts': rows[3][0]['consts'], 'observed': rows[3][2]})
 
     def search(budget):
